@@ -89,6 +89,25 @@ class CharacterConstant(Token):
     Represents a character constant.
     """
 
+    def spelling(self):
+        """
+        Return the string representation of this token in the input code.
+        Useful primarily for debugging and generating error messages.
+        """
+        return [f"'{self.token!s}'"]
+
+    def sanitized_str(self):
+        """
+        Return this character constant quoted for stringification.
+        """
+        out = ["'"]
+        for c in self.token:
+            if c in ['\\', '"']:
+                out.append("\\")
+            out.append(c)
+        out.append("'")
+        return "".join(out)
+
 
 @dataclass
 class NumericalConstant(Token):
